@@ -258,6 +258,9 @@ def run_cli(lines_nl, files):
 def _write(fn, content):
     if os.path.dirname(fn):
         os.makedirs(os.path.dirname(fn), exist_ok=True)
+    if content and content[0].startswith("LINK:"):       # a symbolic link to another file or directory of the set
+        os.symlink(content[0][5:], fn)
+        return
     with open(fn, "w") as f:
         if content and content[0].startswith("RAW:"):
             f.write(content[0][4:])
